@@ -38,13 +38,14 @@ Definition plog {F : flavour} (p : fl_state F) : log := ps_log (fl_pub F p).
 (* ---- what an offer / a claim does, seen from the log ---- *)
 Inductive append_effect (F : flavour) (pinv : Z -> Z -> fl_state F -> Prop) (p : fl_state F) (n off : Z)
     (laid : Z -> list entry -> option (Z * Z * Z) -> Prop) : fl_state F * outcome Z -> Prop :=
-| AE_refuse e : e <> AdminAction -> append_effect F pinv p n off laid (p, Err e)
+| AE_refuse e : refusal e = true -> append_effect F pinv p n off laid (p, Err e)
 | AE_accept p' req es cl : laid req es cl -> 0 < req ->
     ps_closed (fl_pub F p) = false -> n * l_tlen (plog p) + off < l_limit (plog p) -> off + req <= l_tlen (plog p) ->
     same_geom (plog p) (plog p') -> l_limit (plog p') = l_limit (plog p) ->
     part (plog p') (n mod 3) = term_put (part (plog p) (n mod 3)) off es ->
     (forall j, 0 <= j < 3 -> j <> n mod 3 -> part (plog p') j = part (plog p) j) ->
     ps_claim (fl_pub F p') = (match cl with Some c => Some c | None => ps_claim (fl_pub F p) end) ->
+    ps_closed (fl_pub F p') = false ->
     pinv n (off + req) p' ->
     append_effect F pinv p n off laid (p', Ok (n * l_tlen (plog p) + off + req))
 | AE_trip p' req : 0 < req <= l_tlen (plog p) / 2 ->
@@ -56,6 +57,7 @@ Inductive append_effect (F : flavour) (pinv : Z -> Z -> fl_state F -> Prop) (p :
        else part (plog p) (n mod 3)) ->
     (forall j, 0 <= j < 3 -> j <> n mod 3 -> part (plog p') j = part (plog p) j) ->
     ps_claim (fl_pub F p') = ps_claim (fl_pub F p) ->
+    ps_closed (fl_pub F p') = false ->
     pinv (n + 1) 0 p' ->
     append_effect F pinv p n off laid (p', Err AdminAction).
 
@@ -472,8 +474,8 @@ Proof. intros Hp' Hg Hlr Hcr Hh Hlim Hop Hn Hlast Hreq Hlt Hfit Hsg Hl' Hpart Ho
   - lia.
   - exact Hop. Qed.
 
-Lemma on_result_refuse sp e acc : e <> AdminAction -> on_result g sp (Err e) acc = sp.
-Proof. intros H. destruct e; try reflexivity. contradiction. Qed.
+Lemma on_result_refuse sp e acc : refusal e = true -> on_result g sp (Err e) acc = sp.
+Proof. intros H. destruct e; try reflexivity. discriminate. Qed.
 
 Lemma step_offer s sp kk len :
   sys_rep F pinv s sp -> env_ok F m s (SOffer kk len) = true ->
@@ -495,7 +497,7 @@ Proof. intros [n off Fr pend k j D Hp Hg Hlr Hcr Hh Hlim Hwin Hcl] Henv.
   destruct s as [p im asm op]. cbn [sy_pub sy_img sy_asm sy_open] in *. rewrite sys_log_mk in *. fold (plog p) in *.
   cbn [sys_step pub_op sy_pub sy_img sy_asm sy_open]. destruct (fl_step F m rv p (Offer (payload kk len))) as [p' r] eqn:Est.
   cbn [fst snd event_of spec_step].
-  clear Hcount. inversion Heff as [e Hne | p2 req es cl Hlaid Hreq Hclosed Hlt Hfit Hsg Hl' Hpart Hoth Hclm Hp' | p2 req Hreq Hclosed Hlt Hfit Hsg Hl' Hpart Hoth Hclm Hp']; subst.
+  clear Hcount. inversion Heff as [e Hne | p2 req es cl Hlaid Hreq Hclosed Hlt Hfit Hsg Hl' Hpart Hoth Hclm Hcl2 Hp' | p2 req Hreq Hclosed Hlt Hfit Hsg Hl' Hpart Hoth Hclm Hcl2 Hp']; subst.
   - (* refused *)
     rewrite on_result_refuse by assumption.
     apply (SysRep F pinv _ sp n off Fr None k j D); cbn [sy_pub sy_img sy_asm sy_open]; rewrite ?sys_log_mk; auto.
@@ -547,7 +549,7 @@ Proof. intros [n off Fr pend k j D Hp Hg Hlr Hcr Hh Hlim Hwin Hcl] Henv.
   destruct s as [p im asm op]. cbn [sy_pub sy_img sy_asm sy_open] in *. rewrite sys_log_mk in *. fold (plog p) in *.
   cbn [sys_step pub_op sy_pub sy_img sy_asm sy_open]. destruct (fl_step F m rv p (Claim len)) as [p' r] eqn:Est.
   cbn [fst snd event_of spec_step].
-  clear Hcount. inversion Heff as [e Hne | p2 req es cl Hlaid Hreq Hclosed Hlt Hfit Hsg Hl' Hpart Hoth Hclm Hp' | p2 req Hreq Hclosed Hlt Hfit Hsg Hl' Hpart Hoth Hclm Hp']; subst.
+  clear Hcount. inversion Heff as [e Hne | p2 req es cl Hlaid Hreq Hclosed Hlt Hfit Hsg Hl' Hpart Hoth Hclm Hcl2 Hp' | p2 req Hreq Hclosed Hlt Hfit Hsg Hl' Hpart Hoth Hclm Hcl2 Hp']; subst.
   - (* refused *)
     rewrite on_result_refuse by assumption. cbn [is_ok].
     apply (SysRep F pinv _ sp n off Fr None k j D); cbn [sy_pub sy_img sy_asm sy_open]; rewrite ?sys_log_mk; auto.
@@ -575,6 +577,150 @@ Proof. intros [n off Fr pend k j D Hp Hg Hlr Hcr Hh Hlim Hwin Hcl] Henv.
     assert (Hnext : part (plog p) ((n + 1) mod 3) = []).
     { apply (next_clean (mkSys (F := F) p im asm false) n off len Hp Hofft Hok Hclosed Hlt). }
     apply (rep_trip p im asm false sp p' n off Fr k j D req); auto; lia. Qed.
+
+(* ---- facts the oracle proof reads off the relation ---- *)
+Lemma rep_open_iff s sp : sys_rep F pinv s sp -> (sy_open s = false <-> sp_open sp = None).
+Proof. intros [n off Fr pend k j D Hp Hg Hlr Hcr Hh Hlim Hwin Hcl]. destruct Hh as [_ _ _ _ O _ _ _ _].
+  unfold claim_ok in Hcl. destruct pend as [f|], (sp_open sp) as [[len p]|]; try contradiction.
+  - destruct Hcl as [Ho _]. split; intros H; congruence.
+  - split; auto. Qed.
+
+Lemma rep_open_pos s sp len p : sys_rep F pinv s sp -> sp_open sp = Some (len, p) ->
+  p = pos_after (sg_p0 g) (sp_stream sp) + align (32 + len) 32 /\ claimed_len (fl_pub F (sy_pub s)) = len /\ 0 <= len.
+Proof. intros [n off Fr pend k j D Hp Hg Hlr Hcr Hh Hlim Hwin Hcl] Hopen. destruct Hh as [_ _ _ E O _ _ _ _].
+  rewrite Hopen in O. unfold claim_ok in Hcl. destruct pend as [f|]; [|contradiction]. destruct O as [O1 O2].
+  destruct Hcl as (_ & Hclaim & _ & _ & _ & Hfl). cbn [pend_span] in E.
+  assert (Hsp : span f = align (32 + len) 32) by (unfold span; rewrite FA_32, O1; f_equal; ring).
+  split; [lia|]. split; [|lia]. unfold claimed_len. rewrite Hclaim, HDR_eq. lia. Qed.
+
+Lemma rep_sub_facts s sp : sys_rep F pinv s sp ->
+  im_pos (sy_img s) <= pos_after (sg_p0 g) (sp_stream sp) /\ im_pos (sy_img s) mod 32 = 0 /\ im_closed (sy_img s) = false.
+Proof. intros [n off Fr pend k j D Hp Hg Hlr Hcr Hh Hlim Hwin Hcl].
+  pose proof (tlen_facts _ Hg) as (T1 & T32 & Tmp & _ & Tmpl & Tg & Tm). pose proof Hg as (Hleg & Ht & Hm & Hs).
+  destruct Hh as [_ _ _ E _ _ _ _ _]. rewrite Tg in E.
+  pose proof (lr_klo _ _ _ _ _ _ _ _ Hlr) as [Hk1 Hk2]. pose proof (lr_tail _ _ _ _ _ _ _ _ Hlr) as Htail.
+  pose proof (frames_pos_F _ _ _ _ _ _ _ _ k Hlr) as Hfp.
+  pose proof (span_sum_firstn_le j (Fr k) Hfp) as Hle.
+  pose proof (boff_le _ _ _ _ _ _ _ _ k j Hlr Hk1) as Hbl. rewrite Ht in Hbl.
+  assert (Hps : 0 <= pend_span pend).
+  { pose proof (lr_pend _ _ _ _ _ _ _ _ Hlr) as Hpe. destruct pend as [f|]; cbn [pend_span]; [|lia]. pose proof (span_bounds f ltac:(lia)). lia. }
+  rewrite (cr_pos _ _ _ _ _ _ _ Hcr), Ht. split; [|split].
+  - destruct (Z.eq_dec k n) as [-> | Hne].
+    + unfold boff. lia.
+    + pose proof (start_nn n0 off0 Hoff0 n). pose proof (span_sum_nonneg _ (frames_pos_F _ _ _ _ _ _ _ _ n Hlr)). nia.
+  - rewrite Z.add_mod, (mul_mod32 k T32), (boff_al n0 off0 Hoff0al _ _ _ _ _ _ k j Hlr) by lia. reflexivity.
+  - apply (cr_open _ _ _ _ _ _ _ Hcr). Qed.
+
+Lemma rep_ok s sp : sys_rep F pinv s sp ->
+  sp_ok sp = true /\ Forall (fun mp => snd mp mod 32 = 0) (sp_acc sp) /\
+  (sp_open sp = None -> pos_after (sg_p0 g) (sp_stream sp) mod 32 = 0).
+Proof. intros [n off Fr pend k j D Hp Hg Hlr Hcr Hh Hlim Hwin Hcl].
+  pose proof (tlen_facts _ Hg) as (T1 & T32 & Tmp & _ & Tmpl & Tg & Tm).
+  destruct Hh as [_ _ _ E O _ _ L K]. split; [exact K|]. split; [exact L|]. intros Hopen.
+  rewrite Hopen in O. destruct pend as [f|]; [contradiction|]. cbn [pend_span] in E. rewrite Z.add_0_r in E. rewrite E, Tg.
+  rewrite Z.add_mod, (mul_mod32 n T32), (off_al n0 off0 Hoff0al _ _ _ _ _ Hlr) by lia. reflexivity. Qed.
+
+(* shape of the result of every operation but a poll *)
+Definition result_shape (o : sop) (r : outcome Z) : Prop :=
+  match o with
+  | SOffer _ _ | SClaim _ => (exists p, r = Ok p) \/ r = Err AdminAction \/ (exists e, r = Err e /\ refusal e = true)
+  | SPoll _ => True
+  | _ => r = Ok 0
+  end.
+
+Lemma step_shape s sp o : sys_rep F pinv s sp -> env_ok F m s o = true ->
+  match o with SPoll _ => True | _ =>
+    let '(s', (r, ds, ms)) := sys_step F m rv s o in
+    ds = [] /\ ms = [] /\ sy_img s' = sy_img s /\ result_shape o r /\
+    (ps_closed (fl_pub F (sy_pub s')) = true -> match o with SClose => True | _ => ps_closed (fl_pub F (sy_pub s)) = true end)
+  end.
+Proof. intros Hrep Henv. pose proof Hrep as [n off Fr pend k j D Hp Hg Hlr Hcr Hh Hlim Hwin Hcl].
+  pose proof Hg as (Hleg & Ht & Hm & Hs). pose proof (lr_off _ _ _ _ _ _ _ _ Hlr) as Hofft.
+  destruct (fk_basic F pinv FK n off _ Hp) as (_ & Hn & Hcount & Hoff). unfold plog in Hcount. fold (sys_log s) in Hcount.
+  assert (Hlast : n < two31 - 1) by (unfold env_ok in Henv; lia).
+  assert (Henvop : forall po, is_append po = false -> C04Proofs.op_ok (plog (sy_pub s)) po ->
+            ps_closed (fst (env_step (fl_pub F (sy_pub s)) po)) = true -> match po with Close => True | _ => ps_closed (fl_pub F (sy_pub s)) = true end).
+  { intros po _ _. destruct po; cbn [env_step fst]; auto; try (unfold pub_commit, claim_apply; destruct (ps_claim _) as [[[? ?] ?]|]; cbn [fst ps_closed]; auto;
+      destruct (_ <? _); cbn [fst ps_closed]; auto). }
+  destruct o; try exact Logic.I.
+  - (* offer *)
+    assert (Hlen : 0 <= len <= 1073741824) by (unfold env_ok, append_ok in Henv; lia).
+    pose proof (fk_offer F pinv FK m rv n off (sy_pub s) (payload k0 len) Hp Hlast Hofft) as Heff.
+    rewrite (zlen_payload k0 len) in Heff by lia. specialize (Heff ltac:(lia)). unfold plog in Heff at 1. fold (sys_log s) in Heff.
+    rewrite Hm in Heff. specialize (Heff Hmtu32).
+    cbn [sys_step pub_op]. destruct (fl_step F m rv (sy_pub s) (Offer (payload k0 len))) as [p' r] eqn:Est.
+    cbn [sy_img sy_pub]. repeat split; auto.
+    + inversion Heff; subst; cbn [result_shape]; eauto.
+    + inversion Heff; subst; intros Hc; congruence.
+  - (* claim *)
+    assert (Hlen : 0 <= len <= 1073741824) by (unfold env_ok, append_ok in Henv; lia).
+    pose proof (fk_claim F pinv FK m rv n off (sy_pub s) len Hp Hlast Hofft Hlen) as Heff.
+    cbn [sys_step pub_op]. destruct (fl_step F m rv (sy_pub s) (Claim len)) as [p' r] eqn:Est.
+    cbn [sy_img sy_pub]. repeat split; auto.
+    + inversion Heff; subst; cbn [result_shape]; eauto.
+    + inversion Heff; subst; intros Hc; congruence.
+  - (* commit *)
+    destruct (fk_env F pinv FK m rv n off (sy_pub s) (pub_op (fl_pub F (sy_pub s)) (SCommit k0)) Hp eq_refl Logic.I) as (E1 & E2 & _).
+    cbn [sys_step]. destruct (fl_step F m rv (sy_pub s) _) as [p' r] eqn:Est. cbn [fst snd] in E1, E2. cbn [sy_img sy_pub].
+    repeat split; auto.
+    + cbn [result_shape]. rewrite E2. cbn [pub_op env_step].
+      assert (Hopen : sy_open s = true) by (unfold env_ok in Henv; lia).
+      unfold claim_ok in Hcl. destruct pend as [f|]; [|congruence]. destruct Hcl as (_ & Hclaim & _ & _ & _ & Hfl).
+      unfold pub_commit, claimed_len. rewrite Hclaim. rewrite zlen_payload by (rewrite HDR_eq; lia).
+      assert (Eb : (f_len f - HDR <? f_len f - HDR) = false) by lia. rewrite Eb. unfold claim_apply. rewrite Hclaim. reflexivity.
+    + rewrite E1. apply (Henvop (pub_op (fl_pub F (sy_pub s)) (SCommit k0)) eq_refl Logic.I).
+  - (* abort *)
+    destruct (fk_env F pinv FK m rv n off (sy_pub s) (pub_op (fl_pub F (sy_pub s)) SAbort) Hp eq_refl Logic.I) as (E1 & E2 & _).
+    cbn [sys_step]. destruct (fl_step F m rv (sy_pub s) _) as [p' r] eqn:Est. cbn [fst snd] in E1, E2. cbn [sy_img sy_pub].
+    repeat split; auto.
+    + cbn [result_shape]. rewrite E2. cbn [pub_op env_step].
+      assert (Hopen : sy_open s = true) by (unfold env_ok in Henv; lia).
+      unfold claim_ok in Hcl. destruct pend as [f|]; [|congruence]. destruct Hcl as (_ & Hclaim & _).
+      unfold claim_apply. rewrite Hclaim. reflexivity.
+    + rewrite E1. apply (Henvop Publication.Abort eq_refl Logic.I).
+  - (* set limit *)
+    assert (Hok : C04Proofs.op_ok (plog (sy_pub s)) (SetLimit v)).
+    { pose proof (tlen_facts _ Hg) as (T1 & _).
+      pose proof (pos_bounds _ _ _ _ _ _ _ _ Hlr Hcr Ht ltac:(lia)) as Hpb. pose proof (lr_klo _ _ _ _ _ _ _ _ Hlr) as [Hk1 Hk2].
+      unfold env_ok in Henv. rewrite Hcount, Ht in Henv. cbn [C04Proofs.op_ok]. unfold limit_ok, plog. fold (sys_log s). rewrite Ht.
+      assert (0 <= tlen / 2) by (apply Z.div_pos; lia). unfold two31 in *. nia. }
+    destruct (fk_env F pinv FK m rv n off (sy_pub s) (SetLimit v) Hp eq_refl Hok) as (E1 & E2 & _).
+    cbn [sys_step pub_op]. destruct (fl_step F m rv (sy_pub s) _) as [p' r] eqn:Est. cbn [fst snd] in E1, E2. cbn [sy_img sy_pub].
+    repeat split; auto. rewrite E1. intros Hc. exact Hc.
+  - (* clean *)
+    cbn [sys_step sy_img sy_pub]. destruct (fk_clean F pinv FK n off (sy_pub s) i Hp) as (E1 & _).
+    repeat split; auto. unfold plog in E1. rewrite E1. intros Hc. exact Hc.
+  - (* connected *)
+    destruct (fk_env F pinv FK m rv n off (sy_pub s) (SetConnected b) Hp eq_refl Logic.I) as (E1 & E2 & _).
+    cbn [sys_step pub_op]. destruct (fl_step F m rv (sy_pub s) _) as [p' r] eqn:Est. cbn [fst snd] in E1, E2. cbn [sy_img sy_pub].
+    repeat split; auto. rewrite E1. intros Hc. exact Hc.
+  - (* close *)
+    destruct (fk_env F pinv FK m rv n off (sy_pub s) Close Hp eq_refl Logic.I) as (E1 & E2 & _).
+    cbn [sys_step pub_op]. destruct (fl_step F m rv (sy_pub s) _) as [p' r] eqn:Est. cbn [fst snd] in E1, E2. cbn [sy_img sy_pub].
+    repeat split; auto. Qed.
+
+Lemma poll_shape s sp limit : sys_rep F pinv s sp -> l_count (sys_log s) < two31 - 1 ->
+  let '(s', (r, ds, ms)) := sys_step F m rv s (SPoll limit) in
+  r = Ok (Z.of_nat (length ds)) /\ Forall (fun x => fst x = ses) ms /\ im_pos (sy_img s) <= im_pos (sy_img s') /\
+  sy_pub s' = sy_pub s /\ sy_open s' = sy_open s.
+Proof. intros [n off Fr pend k j D Hp Hg Hlr Hcr Hh Hlim Hwin Hcl] Hlast.
+  destruct (cursor_norm _ _ _ _ _ _ _ _ _ _ Hlr Hcr) as (k' & j' & Hk' & Hlr' & Hcr' & Hrest & Hnorm).
+  pose proof Hg as (Hleg & Ht & Hm & Hs).
+  destruct (fk_basic F pinv FK n off _ Hp) as (_ & Hn & Hcount & Hoff).
+  unfold plog in Hcount. fold (sys_log s) in Hcount. rewrite Hcount in Hlast.
+  destruct (poll_spec n0 off0 Hn0 Hoff0 _ _ _ _ _ _ _ _ limit Hlr' Hcr' Hlast Hnorm) as (j2 & ws & im' & Hpoll & Hj2 & Hcr2 & Hses & _).
+  cbv zeta in Hpoll. cbn [sys_step]. rewrite Hpoll.
+  set (cons := firstn (j2 - j') (skipn j' (Fr k'))) in *.
+  assert (Hcok : Forall (frame_ok ses) cons).
+  { unfold cons. apply Forall_firstn_, Forall_skipn_. rewrite <- Hs. apply (lr_ok _ _ _ _ _ _ _ _ Hlr'). }
+  pose proof (assemble_one_session ses (map frag_of (data_of (place (boff n0 off0 Fr k' j') cons))) (sy_asm s)
+                (data_of_sessions ses _ cons Hcok)) as [H1 _].
+  change frag_of_dlv with frag_of.
+  destruct (assemble (sy_asm s) (map frag_of (data_of (place (boff n0 off0 Fr k' j') cons)))) as [bs' ms] eqn:Easm.
+  cbn [snd] in H1. cbn [sy_img sy_pub sy_open]. split; [reflexivity|]. split; [|split; [|split; reflexivity]].
+  - rewrite H1. apply Forall_map. apply Forall_forall. intros; reflexivity.
+  - rewrite (cr_pos _ _ _ _ _ _ _ Hcr'), (cr_pos _ _ _ _ _ _ _ Hcr2). unfold boff.
+    pose proof (span_sum_firstn_mono j' j2 (Fr k') (frames_pos_F _ _ _ _ _ _ _ _ k' Hlr') ltac:(lia)). lia. Qed.
 
 (* ---- every step ---- *)
 Theorem sys_step_rep s sp o :
